@@ -314,7 +314,9 @@ def edit(s, rng, ver):
             if p and s.startswith(p):
                 body = s[len(p) :]
         return rng.choice(["CVSS:3.0/", "CVSS:3.1/", "CVSS:4.0/", "CVSS:3.2/", "CVSS:2.0/", "cvss:3.1/",
-                           "CVSS:3.1", "CVSS:4.0", "CVSS:3.10/", "", "CVSS:4.1/", "CVSS:3.0/CVSS:3.1/"]) + body
+                           "CVSS:3.1", "CVSS:4.0", "CVSS:3.10/", "", "CVSS:4.1/", "CVSS:3.0/CVSS:3.1/", "CVSS:3.01/", "CVSS:3.+1/",
+                           "CVSS:3. 1/", "CVSS:03.1/", "CVSS:3.1\n/", "CVSS:4.00/", "CVSS:4.+0/", "CVSS:4/", "CVSS:3/", "CVSS:３.1/",
+                           "CVSS:3.١/", "cVSS:3.1/", "CVSS:3,1/", "CVSS:3.1//"]) + body
     if kind == 10 and len(fields) > 1:  # empty a field / break the separator of a field
         i = rng.randrange(len(fields))
         fields[i] = rng.choice(["", fields[i].replace(":", ""), fields[i] + ":", ":" + fields[i],
